@@ -62,6 +62,8 @@ def run(ctx, gen_status):
         for kind in ['single', 'pair', 'scalar_label', 'triple']:
             loader.append({'N': L * r.choice([1, 2]) if L < 40 else L, 'bs': 1 if L >= 40 else r.choice([1, 2]), 'kind': kind, 'seed': r.randint(0, 999)})
     loader = [c for c in loader if c['N'] <= 240]
+    # loader lengths L with fl(1/L) * (B * L) < B in binary64: the expected batch size must still be B
+    loader += [{'N': 49, 'bs': 1, 'kind': 'single', 'seed': r.randint(0, 999)}, {'N': 98, 'bs': 2, 'kind': 'pair', 'seed': r.randint(0, 999)}]
     # the original loader drops its last incomplete batch: the private loader has len(original) batches, rate 1/len(original)
     for N, bs in ((50, 8), (23, 5), (10, 3), (9, 4)):
         loader.append({'N': N, 'bs': bs, 'kind': 'single', 'seed': r.randint(0, 999), 'drop_last': True})
@@ -162,8 +164,8 @@ def run(ctx, gen_status):
                 ctx.fail('rate-consistency', 'sampler uses %r, accountant was handed %s' % (e['sampler_rate'], e['accounted']), c)
             if e['steps'] != rr['L']:
                 ctx.fail('batches-per-epoch', 'engine epoch took %d steps, loader length %d' % (e['steps'], rr['L']), c)
-            if e['ebs'] != int(c['N'] * (1 / e['len'])):
-                ctx.fail('expected-batch-size', 'expected_batch_size %r != int(N * 1/len) %r' % (e['ebs'], int(c['N'] * (1 / e['len']))), c)
+            if e['ebs'] != c['N'] // e['len']:
+                ctx.fail('expected-batch-size', 'expected_batch_size %r is not the integer part of q * N = N / len = %r' % (e['ebs'], c['N'] // e['len']), c)
     # ---- model correspondence (exact)
     with vlib.CoqLock():
         ok, out = vlib.coq_make(['Exec/RunSampler.vo'])
